@@ -181,6 +181,34 @@ let run_case op t =
        let ss = [ Z.add c x; Z.sub c x ] in
        (legs (List.map tok_of ms),
         if rep_ok w1 && List.for_all (fits w1) (c :: x :: ss) then legs (List.map str_of_z ss) else "na")
+     | "chain" | "tp_chain" ->
+       (* (obj @k1 a) @k2 b for every k2 (ModelChain.v / SpecChain.v): per k2 the count left in obj and the count
+          of the value of the expression; k1, k2 index all_mops (time_point: the first six) *)
+       let k1 = next_int t in
+       let c = next_z t in let a = next_z t in let b = next_z t in
+       let tp = (op = "tp_chain") in
+       let ops = List.filteri (fun k _ -> not tp || k < 6) all_mops in
+       let o1 = List.nth all_mops k1 in
+       let pr = function
+         | Val (d, v) -> [ str_of_z d; str_of_z v ]
+         | Ub _ -> [ "ub" ] | IllFormed -> [ "illformed" ] | Fuel -> [ "fuel" ] in
+       let m = List.concat_map (fun o2 -> pr ((if tp then tp_chain_m else chain_m) o1 o2 w1 c a b)) ops in
+       let dom = rep_ok w1 && (not tp || tp_op_spec o1) && List.for_all (fun o2 -> chain_ok w1 o1 o2 c a b) ops in
+       (legs m,
+        if dom then legs (List.concat_map (fun o2 -> let (d, v) = chain_spec o1 o2 c a b in [ str_of_z d; str_of_z v ]) ops)
+        else "na")
+     | "reftypes" ->
+       (* is_same_v<decltype(obj @ x), T&> per operator, then is_same_v<decltype(obj @ x), T>; duration, then time_point *)
+       let tops = List.filter tp_has_op all_mops in
+       let sops = List.filter tp_op_spec all_mops in
+       (legs (List.map (fun o -> b2s (returns_lvalue_m o)) all_mops
+              @ List.map (fun o -> b2s (not (returns_lvalue_m o))) all_mops
+              @ List.map (fun o -> b2s (tp_returns_lvalue_m o)) tops
+              @ List.map (fun o -> b2s (not (tp_returns_lvalue_m o))) tops),
+        legs (List.map (fun o -> b2s (returns_this_spec o)) all_mops
+              @ List.map (fun o -> b2s (not (returns_this_spec o))) all_mops
+              @ List.map (fun o -> b2s (returns_this_spec o)) sops
+              @ List.map (fun o -> b2s (not (returns_this_spec o))) sops))
      | "scalar" ->
        (* duration<w1; n1/d1> op scalar of width w2 *)
        let c = next_z t in let x = next_z t in
